@@ -8,7 +8,7 @@ import registry
 TECH = "contract-based deductive verification: Kani/CBMC harness contracts on the real crate (scratch copy of the working tree) and Verus on mechanically extracted functions"
 CLAIMS = {
  "C02": ("other", "Bounded stand-ins plus call-site proofs: from every state of the gradual calculators' representation invariant (object count fixed per harness, position and nth argument symbolic) one next()/nth(k) processes exactly the difficulty objects of the consumed hit objects, in order, and the i-th value carries the counts of exactly the first i objects; each mode's constructor converts with the same (mode, mods) as the one-shot path and catch converts its objects with the same arguments on both paths. Equality of the float attributes rests on 'same function, same prefix' (assumption A-F) and is not proved.", "DESIGN.md §5 C02",
-         "skill process/eval stubbed (frame assumed); new() establishing the invariant not proved; N<=3 quick, <=4 thorough; taiko healthy class only, F3/F4 known findings; mania hold-note combo under clock rates (F7) not checked"),
+         "skill process/eval stubbed (frame assumed); new() establishing the invariant only on small maps (mania two-object maps, taiko hhh / hhnh); N<=3 quick, <=4 thorough; taiko healthy class only, F3/F4 known findings; mania hold-note combo under clock rates (F7) not checked"),
  "C03": ("other", "Bounded stand-ins: for osu, mania, catch (0 or 2 objects quick, 3 thorough) and taiko (three hits), from every invariant state and any score state / caller Difficulty, GradualPerformance::next/nth/last consume min(n+1, remaining) objects, return None exactly when nothing remains, and the performance builder whose calculate() is invoked equals Performance(attrs_i).difficulty(D).passed_objects(i).state(S) field for field (calculate() replaced by a recording stub). Plus the proof that Performance::passed_objects forwards in all modes.", "DESIGN.md §5 C03",
          "pp calculation itself stubbed (same function on both paths: A-F); skill process/eval stubbed"),
  "C05": ("proof", "Side conditions only: absence of panics (index, overflow, unwrap, unreachable) inside every function under contract for its stated precondition, checked by Kani on each harness; BananaShower::new terminates within 18 iterations without i32 overflow on the realistic domain (unwinding assertions). Whole-decoder / whole-pipeline totality is outside the technique and not claimed.", "DESIGN.md §5 C05",
@@ -29,9 +29,9 @@ CLAIMS = {
          "legacy mods only; accuracy in [0,1] non-NaN; catch provided counts <= 2^30; Kani/CBMC trusted"),
  "C13": ("other", "Bounded stand-ins for two of the four modes: taiko (max_combo <= 6 quick, <= 12 thorough) and catch tiny droplets (counts <= 4 quick, <= 10 thorough): the generated state has the given misses, distributes all remaining objects, and its accuracy is at least as close to the requested one as that of EVERY other distribution (symbolic competitor, no enumeration), for every accuracy in [0,1] and every miss count. osu! (2-D window plus slider accuracy) and mania (5-D) are not covered.", "DESIGN.md §5 C13",
          "IEEE doubles handled bit-precisely by CBMC; small attribute shapes only; osu and mania not covered"),
- "C14": ("proof", "Partial: passed_objects(n) limits to exactly n for every n incl. 0 and is unlimited when unset; catch's limited object counter obeys its per-call contract (Kani, all values) and by induction (Verus lemma, unbounded) counts min(n, total), monotonically and saturating; taiko's counting closure inside the real create_difficulty_objects gives max_combo == min(n, hits) (bounded, <= 3 objects); gradual values count exactly the first i objects (bounded, from C02's obligations). osu!'s counting closure and mania's n_objects call site are not under contract (attempts run out of memory).", "DESIGN.md §5 C14",
+ "C14": ("proof", "Partial: passed_objects(n) limits to exactly n for every n incl. 0 and is unlimited when unset; catch's limited object counter obeys its per-call contract (Kani, all values) and by induction (Verus lemma, unbounded) counts min(n, total), monotonically and saturating; taiko's counting closure inside the real create_difficulty_objects gives max_combo == min(n, hits) (bounded, <= 3 objects); ManiaObject::new counts per hit-object kind (circle: 1 combo; spinner / hold: one hold note and 1 + floor(duration/100) combo; slider: one hold note, curve length stubbed); gradual values count exactly the first i objects (bounded, from C02's obligations). osu!'s counting closure and mania's n_objects call site are not under contract (attempts run out of memory).", "DESIGN.md §5 C14",
          "osu convert_objects does not finish in CBMC even for one object; mania n_objects vs. map rewrites (Invert) not checked"),
- "C15": ("proof", "Unbounded Verus proofs on the mechanically extracted real code of the osu!, catch and mania gradual difficulty calculators: next(), Iterator::nth() and len() - and, modularly on top of nth's contract, the gradual performance calculators' nth/next/last/len - obey the protocol for EVERY object count, position and n (Some iff enough values remain, exactly min(n+1, remaining) values consumed, nth counts the same objects as n+1 next() calls, invariant preserved so an exhausted calculator stays exhausted, all indices in bounds, no overflow); taiko len() likewise. Bounded Kani stand-ins (object count fixed per harness, position and n symbolic) for the same clauses on the un-extracted code incl. taiko's healthy class and the gradual performance next/nth/last of all four modes; taiko short maps / non-hit-first maps are known findings F4/F3.", "DESIGN.md §5 C15",
+ "C15": ("proof", "Unbounded Verus proofs on the mechanically extracted real code of the osu!, catch, mania and taiko (healthy class: at least three objects, first two are hits) gradual difficulty calculators: next(), Iterator::nth() and len() - and, modularly on top of nth's contract, the gradual performance calculators' nth/next/last/len - obey the protocol for EVERY object count, position and n (Some iff enough values remain, exactly min(n+1, remaining) values consumed, nth counts the same objects as n+1 next() calls, invariant preserved so an exhausted calculator stays exhausted, all indices in bounds, no overflow; taiko additionally: the i-th value has max_combo == i). Bounded Kani stand-ins (object count fixed per harness, position and n symbolic) for the same clauses on the un-extracted code incl. taiko's healthy class and the gradual performance next/nth/last of all four modes; taiko short maps / non-hit-first maps are known findings F4/F3.", "DESIGN.md §5 C15",
          "callees of next/nth (skill process, eval, combo/count increments, clone) are external_body contracts in Verus resp. stubs in Kani; rewrites R10/R11 model std's skip/take/zip/filter; the inductive base case (new establishes the invariant) is not proved; taiko next/nth bounded only"),
  "C16": ("other", "Partial, bounded: the open section's peak is always appended before export or aggregation (so all skills report the same number of sections), strains and difficulty are computed on the same conversion (call-site contract), StrainsVec iter/sum/retain/transmute equal the plain list for <= 3 pushes. The decay-weighted aggregation itself (std sort) and finiteness of peaks are not covered.", "DESIGN.md §5 C16",
          "difficulty_value (sort) did not finish and is not claimed; peaks' finiteness is float pipeline"),
@@ -39,8 +39,8 @@ CLAIMS = {
          "legacy mods; round trip and 1/clock_rate scaling are float identities the solver does not finish"),
  "C18": ("proof", "Complete loop-free Kani proofs: every Performance setter equals the same setter applied to the Difficulty (or is the identity where documented irrelevant) in all four modes; Difficulty survives inspect()/into_difficulty() field-wise (clock rate bit-exact); clamps to documented bounds for all f32/f64 bit patterns.", "DESIGN.md §5 C18",
          "mods = GameMods::Legacy(bits); NaN attribute overrides excluded (PartialEq not reflexive); builders created from default attributes"),
- "C19": ("proof", "Partial: taiko's tandem sort keeps sounds paired (Verus, all lengths); column_to_pos / ManiaObject::column are inverse for every key count a conversion can produce and column(x,t) < t for all f32 x (proofs); random columns stay in range for every generator state (proof); stair patterns stay below the key count (bounded span counts); path-object notes have duration end-start >= 0 (proof); effect points stay strictly ordered (bounded); catch conversion changes only mode and is_convert (proof on object-free maps). Output sortedness of the mania converter and non-negative durations are not claimed.", "DESIGN.md §5 C19",
-         "pattern generators other than the stair are not under contract; mania legacy sort not verified"),
+ "C19": ("proof", "Partial: taiko's tandem sort keeps sounds paired (Verus, all lengths); column_to_pos / ManiaObject::column are inverse for every key count a conversion can produce and column(x,t) < t for all f32 x (proofs); random columns stay in range for every generator state (proof); stair patterns stay below the key count (bounded span counts); the deterministic arms of HitObjectPatternGenerator::generate_core (REVERSE, FORCE_STACK, CYCLE, STAIR, REVERSE_STAIR) place notes only in regular columns, one per column (bounded: 4K/7K/8K); path-object notes have duration end-start >= 0 (proof); effect points stay strictly ordered (bounded); catch conversion changes only mode and is_convert (proof on object-free maps). Output sortedness of the mania converter and non-negative durations are not claimed.", "DESIGN.md §5 C19",
+         "random pattern arms and the other generators are not under contract; mania legacy sort not verified"),
 }
 NA = {
  "C01": "determinism over call histories is a 2-safety hyperproperty of the whole API (and bpm() depends on HashMap RandomState iteration order): no single-call contract within reach of Verus or Kani expresses it; see DESIGN.md §5 C01",
